@@ -311,6 +311,16 @@ impl<'a> crate::fdl::FdlApplication for DpMaster<'a> {
                 }
             };
 
+            if peripheral_event.is_some() {
+                // Only one peripheral event can be reported per poll, so end our turn here and
+                // continue with the next peripheral when we are asked again.
+                self.state.last_events = DpEvents {
+                    peripheral: peripheral_event,
+                    ..Default::default()
+                };
+                return None;
+            }
+
             if let Some((handle, peripheral)) = self.peripherals.get_at_index_mut(index) {
                 let res = peripheral.transmit_telegram(now, &self.state, fdl, tx, high_prio_only);
 
